@@ -417,7 +417,10 @@ def gen_reject(R, n):
         elif fam == 17:
             m, t, why = st + "dbig", "%d / %d" % (v, w), "fraction in a float macro"
         elif fam == 18:
-            m, t, why = st + "rbig", "%d/0" % v, "zero denominator"
+            if R.random() < 0.5:
+                m, t, why = st + "rbig", "%d/0" % v, "zero denominator"
+            else:
+                m, t, why = st + "rbig", R.choice(["%d/", "~%d/", "-%d/", "%d/ base 7"]) % v, "slash without a denominator"
         elif fam == 19:
             if R.random() < 0.5:
                 m, t, why = st + "rbig", "%d/%d/%d" % (v, w, w), "two slashes"
